@@ -621,6 +621,13 @@ func ReturnValues(f *ssa.Function, i int) []ssa.Value {
 func SpillSources(v ssa.Value) []ssa.Value {
 	if u, ok := v.(*ssa.UnOp); ok && u.Op == token.MUL {
 		if a, ok := u.X.(*ssa.Alloc); ok {
+			// the closest store in the same block before the load wins
+			blk := u.Block()
+			for i := Index(u) - 1; i >= 0; i-- {
+				if st, ok := blk.Instrs[i].(*ssa.Store); ok && st.Addr == ssa.Value(a) {
+					return []ssa.Value{st.Val}
+				}
+			}
 			var out []ssa.Value
 			for _, ref := range Referrers(a) {
 				if st, ok := ref.(*ssa.Store); ok && st.Addr == ssa.Value(a) {
